@@ -4,16 +4,19 @@
 //! operation and (b) inside every `yield_point` whose label the case declared *active*; it resumes
 //! only when the controller grants it one step. `Sched::step(t)` grants thread `t` one step and
 //! waits until `t` parks again or finishes. If `t` does not arrive although some thread is parked
-//! at a label that is declared to *hold a lock*, `t` is blocked on that real lock: the controller
-//! reports `Blocked` after `BLOCK_MS` (no false positives are possible when nobody is parked inside a
-//! critical section: then the controller simply keeps waiting).
+//! at a label that is declared to *hold a lock*, and the kernel reports `t` as sleeping (state `S` in
+//! /proc/self/task/<tid>/stat) on several consecutive polls after `BLOCK_MS`, `t` is blocked on that
+//! real lock: the controller reports `Blocked`. A thread that is merely slow (runnable, state `R`,
+//! e.g. on an overloaded machine) is waited for; no verdict depends on wall-clock time alone.
+//! An optional `abort` predicate (e.g. "the incremental worker thread of the engine is gone") ends
+//! the wait with `Blocked` as well.
 //! Threads not registered with the scheduler (timely workers, tokio pool) pass through untouched.
 use std::cell::Cell;
 use std::collections::HashSet;
 use std::sync::{Arc, Condvar, Mutex, Once};
 use std::time::{Duration, Instant};
 
-pub const BLOCK_MS: u64 = 1200;
+pub const BLOCK_MS: u64 = 250;
 const HARD_LIMIT_S: u64 = 60;
 
 #[derive(Clone, Debug, PartialEq)]
@@ -35,6 +38,8 @@ pub enum StepResult {
 }
 
 struct St {
+    stuck_ms: u64,
+    tids: Vec<Option<u64>>,
     status: Vec<Status>,
     grant: Vec<bool>,
     free_run: bool,
@@ -42,6 +47,7 @@ struct St {
 }
 
 pub struct Sched {
+    abort: Mutex<Option<Box<dyn Fn() -> bool + Send + Sync>>>,
     st: Mutex<St>,
     cv: Condvar,
     active: HashSet<&'static str>,
@@ -65,7 +71,8 @@ impl Sched {
     pub fn new(n: usize, active: &[&'static str], holding: &[&'static str]) -> Arc<Sched> {
         INSTALL.call_once(|| inputlayer::verif_hooks::set_yield_callback(Some(Arc::new(|l: &str| on_yield(l)))));
         let s = Arc::new(Sched {
-            st: Mutex::new(St { status: vec![Status::NotStarted; n], grant: vec![false; n], free_run: false, step_no: 0 }),
+            abort: Mutex::new(None),
+            st: Mutex::new(St { stuck_ms: HARD_LIMIT_S * 1000, tids: vec![None; n], status: vec![Status::NotStarted; n], grant: vec![false; n], free_run: false, step_no: 0 }),
             cv: Condvar::new(),
             active: active.iter().copied().collect(),
             holding: holding.iter().copied().collect(),
@@ -122,6 +129,7 @@ impl Sched {
         g.grant[t] = true;
         self.cv.notify_all();
         let t0 = Instant::now();
+        let mut asleep = 0u32;
         loop {
             match &g.status[t] {
                 Status::Parked(l) if !g.grant[t] => { let l = l.clone(); g.step_no += 1; return StepResult::Arrived(Some(l)); }
@@ -132,11 +140,22 @@ impl Sched {
             g = g2;
             let someone_holds = (0..g.status.len()).any(|u| u != t && matches!(&g.status[u], Status::Parked(l) if self.holding.contains(l.as_str())));
             if someone_holds && t0.elapsed() >= Duration::from_millis(BLOCK_MS) && matches!(g.status[t], Status::Running) {
-                return StepResult::Blocked;
+                if g.tids[t].map(thread_sleeping).unwrap_or(false) { asleep += 1; } else { asleep = 0; }
+                if asleep >= 4 { return StepResult::Blocked; }
             }
-            if t0.elapsed().as_secs() > HARD_LIMIT_S { return StepResult::Blocked; }
+            if matches!(g.status[t], Status::Running) {
+                let ab = self.abort.lock().unwrap_or_else(|e| e.into_inner());
+                if let Some(f) = ab.as_ref() { if f() { return StepResult::Blocked; } }
+            }
+            if t0.elapsed().as_millis() as u64 > g.stuck_ms { return StepResult::Blocked; }
         }
     }
+
+    /// after this many ms without arrival a granted thread counts as stuck (default: 60 s)
+    pub fn set_stuck_limit(&self, ms: u64) { self.st.lock().unwrap_or_else(|e| e.into_inner()).stuck_ms = ms; }
+
+    /// predicate polled while waiting for a granted thread; `true` ends the wait with `Blocked`
+    pub fn set_abort(&self, f: Box<dyn Fn() -> bool + Send + Sync>) { *self.abort.lock().unwrap_or_else(|e| e.into_inner()) = Some(f); }
 
     /// a schedule entry that names a finished thread still counts as a step index
     pub fn bump(&self) { self.st.lock().unwrap_or_else(|e| e.into_inner()).step_no += 1; }
@@ -155,7 +174,11 @@ impl Sched {
 pub struct Worker { s: Arc<Sched>, t: usize }
 impl Worker {
     /// call first thing in the thread
-    pub fn enter(&self) { ME.with(|m| m.set(Some(self.t))); }
+    pub fn enter(&self) {
+        ME.with(|m| m.set(Some(self.t)));
+        let tid = std::fs::read_link("/proc/thread-self").ok().and_then(|p| p.file_name().and_then(|f| f.to_str().and_then(|x| x.parse::<u64>().ok())));
+        self.s.st.lock().unwrap_or_else(|e| e.into_inner()).tids[self.t] = tid;
+    }
     /// park before an operation
     pub fn begin(&self) { self.s.park(self.t, "begin"); }
     pub fn step_no(&self) -> usize { self.s.step_no() }
@@ -167,6 +190,29 @@ impl Worker {
         self.s.cv.notify_all();
     }
 }
+
+/// kernel scheduling state of a thread of this process: sleeping (`S`), i.e. waiting on a futex/condvar
+fn thread_sleeping(tid: u64) -> bool {
+    match std::fs::read_to_string(format!("/proc/self/task/{tid}/stat")) {
+        Ok(s) => s.rsplit_once(") ").map(|(_, r)| r.starts_with('S')).unwrap_or(false),
+        Err(_) => false,
+    }
+}
+
+/// kernel thread ids of the live threads of this process whose name starts with `prefix`
+pub fn threads_named(prefix: &str) -> Vec<u64> {
+    let mut v = vec![];
+    if let Ok(rd) = std::fs::read_dir("/proc/self/task") {
+        for e in rd.flatten() {
+            if let Ok(c) = std::fs::read_to_string(e.path().join("comm")) {
+                if c.trim_end().starts_with(prefix) { if let Some(t) = e.file_name().to_str().and_then(|x| x.parse().ok()) { v.push(t); } }
+            }
+        }
+    }
+    v
+}
+/// is the thread with this kernel id still there? (a direct lookup, not a directory scan)
+pub fn thread_exists(tid: u64) -> bool { std::path::Path::new(&format!("/proc/self/task/{tid}/stat")).exists() }
 
 /// recursive directory copy (crash image = the directory as it is at a step boundary)
 pub fn copy_dir(src: &std::path::Path, dst: &std::path::Path) -> std::io::Result<()> {
